@@ -39,3 +39,20 @@ Definition snot_ (a : Z) : Z := - a - 1.                  (* !a *)
 Definition sshl_ (w a s : Z) : Z := swrap_ w (a * 2 ^ s). (* a << s *)
 Definition satsub_ (a b : Z) : Z := if a <? b then 0 else a - b.   (* a.saturating_sub(b), unsigned *)
 Definition div_ceil_ (a b : Z) : Z := (a + b - 1) / b.              (* a.div_ceil(b), unsigned, b > 0 *)
+
+(* added for the safegcd kernels *)
+(* a.trailing_zeros() at width w (signed or unsigned: the bit pattern of a negative Z is its two's complement): the number of
+   low zero bits, w for 0 *)
+Fixpoint ctz_go_ (n : nat) (a : Z) : Z := match n with O => 0 | S k => if Z.odd a then 0 else 1 + ctz_go_ k (a / 2) end.
+Definition ctz_ (w a : Z) : Z := ctz_go_ (Z.to_nat w) a.
+(* `a[i] = v` for an array of arrays ([[i64; 2]; 2] is a list of lists) *)
+Definition updl_ {A} (l : list A) (i : nat) (v : A) : list A := firstn i l ++ v :: skipn (S i) l.
+(* `loop { A; if c { break; } B }`: Rust iterates until the `break`.  [step] maps the state to the new state and tells whether the
+   `break` was reached; loop_ runs at most [fuel] iterations and returns None if the `break` was not reached within them.  A
+   function whose body has a `loop` takes [fuel] as its first argument and returns an option: the theorems show that the result
+   is `Some` for every fuel above a stated bound (that is, the Rust loop terminates, and with that value). *)
+Fixpoint loop_ {S : Type} (fuel : nat) (step : S -> S * bool) (s : S) : option S :=
+  match fuel with
+  | O => None
+  | S k => let '(s', brk) := step s in if brk then Some s' else loop_ k step s'
+  end.
